@@ -6,6 +6,7 @@
 
 #include "driver.h"
 
+int harness_flavour = 0;
 volatile int asan_reports = 0;
 static long lineno = 0;
 static char tag[256] = "-";
@@ -159,7 +160,13 @@ int main(int argc, char **argv)
         char *p = line;
         while (*p == ' ') p++;
         if (*p == '#' || *p == '\n' || *p == 0) continue;
+        if (*p == '!') {
+            /* harness directive, e.g. "!flav 3" */
+            if (strncmp(p, "!flav", 5) == 0) harness_flavour = atoi(p + 5);
+            continue;
+        }
         if (*p == '@') {
+            harness_flavour = 0;
             size_t n = strcspn(p + 1, "\r\n");
             if (n >= sizeof tag) n = sizeof tag - 1;
             memcpy(tag, p + 1, n);
@@ -201,7 +208,8 @@ int main(int argc, char **argv)
             for (int i = 0; i < ev.na; i++) printf(i ? ",%lld" : "%lld", ev.a[i]);
             printf("],\"o\":[");
             for (int i = 0; i < ev.no; i++) printf(i ? ",%lld" : "%lld", ev.o[i]);
-            printf("],\"asan\":%d}\n", asan_hit);
+            if (harness_flavour) printf("],\"asan\":%d,\"flav\":%d}\n", asan_hit, harness_flavour);
+            else printf("],\"asan\":%d}\n", asan_hit);
         }
 
         if (*p == '|' && !diverged) {
